@@ -16,7 +16,8 @@ PROP = {
     'assumptions': ['a new hash-map / ambient-state site in /repo/src is reported as a broken obligation (source audit), never by itself as a violation'],
 }
 
-TEXT = {
+TEXT = {'text_added': "Also compared: a document parsed into a fresh arena and into the caller's arena after 600 000 nodes of earlier documents; documents with undefined references parsed on one thread and on 6..16 threads sharing one Options whose broken_link_callback keeps half of the threads inside it at the same moment.",
+ 
     'text': "Proof + exploration of the runtime part. The renderer models are Lean functions of (options, tree) and the correspondence shows "
             "on every run that real format_html equals them byte for byte, so the real output is a function too wherever explored. Lean "
             "proves that the two places where the code computes output from a hash map's iteration order are order independent for "
